@@ -365,7 +365,7 @@ Proof.
       assert (FF0 := FF). rewrite fault_free_dir in FF. apply andb_true_iff in FF as [FD FC].
       unfold df_clean in FD. apply andb_true_iff in FD as [FD _]. apply andb_true_iff in FD as [FO FR].
       apply negb_true_iff in FO. destruct (df_read_at df) eqn:RA; [discriminate|].
-      assert (Hms : exists ms', (if c_gitignore c then match parse_dir_gi (mpath q) ch with GiErr => DGiErr | GiOk m => DEnter (m :: ms) end else DEnter ms) = DEnter ms'
+      assert (Hms : exists ms', (if c_gitignore c then match parse_dir_gi (mpath q) ch with GiErr => if c_fatal c then DGiErr else DEnter (None :: ms) | GiOk m => DEnter (m :: ms) end else DEnter ms) = DEnter ms'
                                 /\ forall nm : N, nm <> DOT -> stack_rep c t ms' (q ++ [nm])).
       { destruct (c_gitignore c) eqn:G.
         - destruct (parse_dir_gi_ff (mpath q) ch FC) as [m PG]. rewrite PG. exists (m :: ms). split; [reflexivity|].
